@@ -575,7 +575,40 @@ def bulk_edits(tr):
     return out
 
 
+RESTRICTING = ("take", "skip", "step_by", "take_while", "skip_while", "nth", "last", "rev_take")
+
+
+def restricted_scans(tr):
+    """iterations over out_neighbors* of some vertex that go through a position-based restriction (take, skip, step_by,
+    take_while, skip_while): [(event, adaptor)]"""
+    out = []
+    an, fx = tr.an, tr.fx
+    IT = "core::iter::traits::iterator::Iterator::"
+    for ev in an.events:
+        if ev["k"] != "call" or not ev["key"] or not ev["key"].startswith(IT) or ev["key"][len(IT):] not in RESTRICTING:
+            continue
+        t = ev["args"][0] if ev["args"] else None
+        depth = 0
+        while t is not None and depth < 6:
+            if t[0] == "site":
+                e2 = fx.an_call_at(t[1])
+                t = ("call", e2["key"], (), tuple(e2["args"])) if e2 is not None else None
+                continue
+            if t[0] == "call" and t[1] in NEIGHBOR_ITERS:
+                out.append((ev, ev["key"][len(IT):]))
+                break
+            if t[0] == "call" and t[1].startswith(IT) and t[3]:
+                t = t[3][0]
+                depth += 1
+                continue
+            break
+    return out
+
+
 def _undecided_shape(o, tr, msg):
+    for ev_, ad in restricted_scans(tr):
+        o.check(False, tr, "scan-restricted:" + ad, "the out-neighbours of a vertex are scanned through %s(): neighbours outside that "
+                "prefix / stride are never looked at, whatever they are" % ad, ev_["span"])
     eds = bulk_edits(tr)
     for ev_ in eds:
         o.check(False, tr, "worklist-edited:" + ev_["key"].split("::")[-1], "a container of pending work is edited in bulk by %s inside next(): "
